@@ -206,7 +206,14 @@ class SymSeq:
 
     def sym_contains(self, I, item):
         if self.contains is None:
-            raise Unsupported(f"'in' on symbolic sequence {self.name} without a membership predicate")
+            # generic membership: some index holds an element equal to the item
+            import z3
+            I._fresh_n += 1
+            j = z3.Int(f"j!{I._fresh_n}")
+            e = I.eq(self.elem(j), item)
+            if isinstance(e, bool):
+                e = z3.BoolVal(e)
+            return z3.Exists([j], z3.And(j >= 0, j < self.length, e))
         return self.contains(I, item)
 
 
